@@ -936,6 +936,7 @@ func main() {
 	r.Floor("finishes_naming_an_alias_of_a_stored_name", int(r.Counter("finishes_naming_an_alias_of_a_stored_name")), 150)
 	r.Floor("alias kinds", r.DistinctN("alias_kind"), 12)
 	r.Floor("forged_finishes_refused+violations", int(r.Counter("forged_finishes_refused"))+r.ViolationCount(), 1000)
+	r.Guard("replace storm", func() { replaceStorm(r) })
 	r.Finish()
 }
 
